@@ -74,20 +74,29 @@
         return result; \
     } \
 \
-    if (ISDIGIT(brs[1])) { /* ip address, possibly ipv4 */ \
-        if (is_ipaddr (brs + 1, bre) == 0) { \
-            result->rc = inverse(EEAV_IPADDR_INVALID); \
-            return result; \
-        } \
-        result->is_ipv4 = true; \
+    if (bre + 1 != end) { /* nothing is allowed after the bracket */ \
+        result->rc = inverse(EEAV_IPADDR_INVALID); \
+        return result; \
     } \
-    else { /* try ipv6 */ \
-        ch = strchr (brs + 1, ':'); \
-        if ((ch == NULL) || (is_ipaddr (ch + 1, bre) == 0)) { \
+\
+    if (strncasecmp (brs + 1, "IPv6:", 5) == 0) \
+        ch = brs + 6; /* tagged ipv6 */ \
+    else \
+        ch = brs + 1; /* ipv4 or legacy untagged ipv6 */ \
+\
+    if (memchr (ch, ':', bre - ch) != NULL) { \
+        if (is_ipv6 (ch, bre) == 0) { \
             result->rc = inverse(EEAV_IPADDR_INVALID); \
             return result; \
         } \
         result->is_ipv6 = true; \
+    } \
+    else { \
+        if (ch != brs + 1 || is_ipv4 (ch, bre) == 0) { \
+            result->rc = inverse(EEAV_IPADDR_INVALID); \
+            return result; \
+        } \
+        result->is_ipv4 = true; \
     } \
     /* valid ip addr. */ \
     result->rc = EEAV_NO_ERROR; \
